@@ -54,6 +54,16 @@
 #include "ompl/geometric/planners/rrt/LBTRRT.h"
 #include "ompl/geometric/planners/rrt/LazyLBTRRT.h"
 #include "ompl/geometric/planners/rrt/TRRT.h"
+#include "ompl/geometric/planners/rrt/BiTRRT.h"
+#include "ompl/geometric/planners/rrt/LazyRRT.h"
+#include "ompl/geometric/planners/prm/PRM.h"
+#include "ompl/geometric/planners/prm/LazyPRM.h"
+#include "ompl/geometric/planners/prm/SPARS.h"
+#include "ompl/geometric/planners/prm/SPARStwo.h"
+#include "ompl/multilevel/planners/qrrt/QRRTStar.h"
+#include "ompl/multilevel/planners/qmp/QMPStar.h"
+#include "ompl/base/spaces/DubinsStateSpace.h"
+#include "ompl/base/spaces/SE2StateSpace.h"
 #include "ompl/geometric/planners/informedtrees/BITstar.h"
 #include "ompl/geometric/planners/informedtrees/ABITstar.h"
 #include "ompl/geometric/planners/informedtrees/AITstar.h"
@@ -288,6 +298,35 @@ static ob::SpaceInformationPtr makeSpace(unsigned dim, double lo, double hi, dou
     space->setValidSegmentCountFactor(factor);
     auto si = std::make_shared<ob::SpaceInformation>(space);
     si->setStateValidityChecker(std::make_shared<Checker>(si, dim, std::move(boxes), field));
+    si->setup();
+    return si;
+}
+
+// Dubins car in the unit square (direction-dependent distance: path length is an asymmetric objective there)
+struct CheckerSE2 : ob::StateValidityChecker
+{
+    std::vector<Box> boxes;
+    CheckerSE2(const ob::SpaceInformationPtr &si, std::vector<Box> b) : ob::StateValidityChecker(si), boxes(std::move(b)) {}
+    bool isValid(const ob::State *s) const override
+    {
+        const auto *se = s->as<ob::SE2StateSpace::StateType>();
+        double v[2] = {se->getX(), se->getY()};
+        for (auto &b : boxes)
+            if (v[0] >= b.lo[0] && v[0] <= b.hi[0] && v[1] >= b.lo[1] && v[1] <= b.hi[1])
+                return false;
+        return true;
+    }
+};
+static ob::SpaceInformationPtr makeDubins(std::vector<Box> boxes)
+{
+    auto space = std::make_shared<ob::DubinsStateSpace>(0.08);
+    ob::RealVectorBounds b(2);
+    b.setLow(0.0);
+    b.setHigh(1.0);
+    space->setBounds(b);
+    auto si = std::make_shared<ob::SpaceInformation>(space);
+    si->setStateValidityChecker(std::make_shared<CheckerSE2>(si, std::move(boxes)));
+    si->setMotionValidator(std::make_shared<ob::DubinsMotionValidator>(si));
     si->setup();
     return si;
 }
@@ -549,6 +588,7 @@ static std::vector<Box> envBoxes(unsigned env, unsigned dim)
             out.push_back(box(0.70, 0.74, 0.76, 1.0));
             break;
         case 7:  // two blocks
+        case 8:
             out.push_back(box(0.3, 0.45, 0.0, 0.35));
             out.push_back(box(0.45, 0.7, 0.45, 0.7));
             break;
@@ -568,6 +608,7 @@ struct Query
 {
     std::vector<double> start;
     std::vector<std::vector<double>> goals;
+    std::vector<std::vector<double>> moreStarts;   // env 8: a second start state
 };
 static Query envQuery(unsigned env, unsigned dim)
 {
@@ -590,6 +631,12 @@ static Query envQuery(unsigned env, unsigned dim)
         q.goals.push_back(std::vector<double>(dim, 0.5));
         q.goals.back()[0] = 0.55;
         q.goals.back()[1] = 0.2;
+    }
+    if (env == 8)  // two start states (the second one is closer to the goal), one goal, the blocks of env 7
+    {
+        q.moreStarts.push_back(std::vector<double>(dim, 0.5));
+        q.moreStarts.back()[0] = 0.85;
+        q.moreStarts.back()[1] = 0.25;
     }
     return q;
 }
@@ -631,6 +678,14 @@ static ob::PlannerPtr makePlanner(const std::string &n, const ob::SpaceInformati
         return p;
     }
     if (n == "TRRT") return std::make_shared<og::TRRT>(si);
+    if (n == "BiTRRT") return std::make_shared<og::BiTRRT>(si);
+    if (n == "LazyRRT") return std::make_shared<og::LazyRRT>(si);
+    if (n == "PRM") return std::make_shared<og::PRM>(si);
+    if (n == "LazyPRM") return std::make_shared<og::LazyPRM>(si);
+    if (n == "SPARS") return std::make_shared<og::SPARS>(si);
+    if (n == "SPARStwo") return std::make_shared<og::SPARStwo>(si);
+    if (n == "QRRTStar") return std::make_shared<ompl::multilevel::QRRTStar>(si);
+    if (n == "QMPStar") return std::make_shared<ompl::multilevel::QMPStar>(si);
     if (n == "CForest")
     {
         auto p = std::make_shared<og::CForest>(si);
@@ -665,9 +720,11 @@ struct Monitor
     ob::OptimizationObjectivePtr obj;
     const ob::State *start;
     double qbound;
+    std::vector<const ob::State *> otherStarts;
     std::mutex m;
     size_t seenCount = 0;   // solution count at the last report
     int printed = 0;        // records with index_ < printed have had their details printed
+    std::map<int, std::string> shown;   // fingerprint of the record whose details were printed for an index
 
     std::string detail(const ob::PlannerSolution &s)
     {
@@ -686,6 +743,8 @@ struct Monitor
         double h = o->motionCostHeuristic(a, b).value();
         double sl = si->distance(a, b);
         bool firstOk = si->equalStates(a, start);
+        for (auto *os : otherStarts)
+            firstOk = firstOk || si->equalStates(a, os);
         bool lastOk = pdef->getGoal()->isSatisfied(b);
         return r + ":" + vp::bits(tc) + ":" + vp::bits(f.value()) + ":" + vp::bits(pg->length()) + ":" + vp::bits(h) + ":" +
                vp::bits(sl) + ":" + (firstOk ? "1" : "0") + (lastOk ? "1" : "0") + ":" +
@@ -700,6 +759,7 @@ struct Monitor
         pdef->clearSolutionPaths();
         seenCount = 0;
         printed = 0;
+        shown.clear();
         std::cout << "clear solve=" << solve << std::endl;
     }
 
@@ -719,13 +779,20 @@ struct Monitor
         for (size_t i = 0; i < sols.size(); ++i)
             out += (i ? "," : "") + std::to_string(sols[i].index_);
         out += " new=";
+        // details are printed for records not printed before -- and again when the record at an index changed (a planner
+        // that clears the problem definition itself and re-adds, as BundleSpaceSequence does, re-uses index 0)
         int maxIdx = printed;
         for (auto &s : sols)
-            if (s.index_ >= printed)
+        {
+            std::string fp = recOf(s) + "@" + std::to_string((unsigned long long)(uintptr_t)s.path_.get());
+            auto it = shown.find(s.index_);
+            if (s.index_ >= printed || it == shown.end() || it->second != fp)
             {
                 out += " " + detail(s);
+                shown[s.index_] = fp;
                 maxIdx = std::max(maxIdx, s.index_ + 1);
             }
+        }
         printed = maxIdx;
         std::cout << out << std::endl;
     }
@@ -772,8 +839,13 @@ static bool doRun(const std::vector<std::string> &t)
     unsigned d = (unsigned)*dim;
     ompl::RNG::setSeed((std::uint_fast32_t)*seed);
     // clearance() is the obstacle distance here (field -1); the cost fields feed the stateCost overrides
-    auto si = makeSpace(d, 0.0, 1.0, 0.01, 1, envBoxes((unsigned)*env, d), -1);
-    auto obj = makeObjective(kind, si, (unsigned)*field, 0.5, d);
+    // obj "dublen": path length in a Dubins space (states x, y, yaw; dim must be 3)
+    const bool dubins = (kind == "dublen");
+    if (dubins && d != 3)
+        return false;
+    auto si = dubins ? makeDubins(envBoxes((unsigned)*env, 2)) : makeSpace(d, 0.0, 1.0, 0.01, 1, envBoxes((unsigned)*env, d), -1);
+    auto obj = dubins ? ob::OptimizationObjectivePtr(std::make_shared<ob::PathLengthOptimizationObjective>(si)) :
+                        makeObjective(kind, si, (unsigned)*field, 0.5, d);
     if (!obj)
         return false;
     if (thr == "inf")
@@ -786,12 +858,24 @@ static bool doRun(const std::vector<std::string> &t)
     for (unsigned i = 0; i < d; ++i)
         start[i] = q.start[i];
     double nearest = std::numeric_limits<double>::infinity();
+    std::vector<ob::ScopedState<>> extraStarts;
+    for (auto &xs : q.moreStarts)
+    {
+        extraStarts.emplace_back(si);
+        for (unsigned i = 0; i < d; ++i)
+            extraStarts.back()[i] = xs[i];
+    }
     if (q.goals.size() == 1)
     {
         for (unsigned i = 0; i < d; ++i)
             goal[i] = q.goals[0][i];
         pdef->setStartAndGoalStates(start, goal, *gthr);
         nearest = si->distance(start.get(), goal.get());
+        for (auto &xs : extraStarts)
+        {
+            pdef->addStartState(xs);
+            nearest = std::min(nearest, si->distance(xs.get(), goal.get()));
+        }
     }
     else
     {
@@ -819,6 +903,8 @@ static bool doRun(const std::vector<std::string> &t)
     std::cout << "run planner=" << pname << " obj=" << kind << " thr=" << vp::bits(obj->getCostThreshold().value())
               << " qbound=" << vp::bits(qbound) << std::endl;
     Monitor mon{si, pdef, obj, start.get(), qbound};
+    for (auto &xs : extraStarts)
+        mon.otherStarts.push_back(xs.get());
     try
     {
         planner->setProblemDefinition(pdef);
@@ -835,8 +921,13 @@ static bool doRun(const std::vector<std::string> &t)
             char h = (k > 0 && k - 1 < hist.size()) ? hist[k - 1] : 'c';
             if (h == 'k' || h == 's')
             {
+                size_t before = pdef->getSolutionCount();
                 planner->clear();
                 std::cout << "plannerclear solve=" << k << std::endl;
+                // some planners' clear() also empties the problem definition's solution set (SPARS::clearQuery,
+                // PlannerMultiLevel::clear, BundleSpace::clear): then the history restarts like after clearSolutionPaths()
+                if (before > 0 && pdef->getSolutionCount() == 0 && h == 'k')
+                    mon.clearSolutions(k);
             }
             if (h == 'p' || h == 's')
                 mon.clearSolutions(k);
